@@ -5,3 +5,7 @@ import Props.C03
 #print axioms C03.history_sorted_and_exact
 #print axioms C03.C03_order_independent
 #print axioms C03.best_is_documented
+#print axioms C03.multipath_spec
+#print axioms C03.multipath_unreachable
+#print axioms C03.multipath_members_tie
+#print axioms C03.multipathOld_counterexample
